@@ -233,6 +233,8 @@ def item_parts(it):
             okind = {"opaque": "Opaque", "struct": "Struct", "outstruct": "OutStruct", "enum": "Enum"}[m["okind"]]
             sf = m["selff"] if flow else m["selff"].replace("'a ", "")
             parts.append("self=%s on %s%s" % (sf, okind, "<'a>" if m["olt"] else ""))
+        if not m["selff"] and m["owner"] != "Op":
+            parts.append("static method on %s%s" % ({"opaque": "Opaque", "struct": "Struct", "outstruct": "OutStruct", "enum": "Enum"}[m["okind"]], "<'a>" if m["olt"] else ""))
         for _, t in m["params"]:
             parts.append("param=%s" % shape(t, flow))
         if m["ret"] is not None:
